@@ -1,21 +1,21 @@
 #!/bin/bash
-# confirm_seeded.sh <id> <deliver dir> [np]: confirm a seeded break in a scratch worktree: demo passes without the patch, ctest passes and demo fails with it.
+# confirm_seeded.sh <id> <deliver dir> [np] [cplx]: confirm a seeded break in a scratch worktree: demo passes without the patch, ctest passes and demo fails with it.
+# np>0: run the demo under mpiexec -np <np>; cplx=1: link the demo against a -DPOMEROL_COMPLEX_MATRIX_ELEMENTS=ON build (ctest is run in both builds).
 set -u
-ID=$1; DEL=$2; NP=${3:-0}
+ID=$1; DEL=$2; NP=${3:-0}; CPLX=${4:-0}
 export OMPI_ALLOW_RUN_AS_ROOT=1 OMPI_ALLOW_RUN_AS_ROOT_CONFIRM=1 OMPI_MCA_rmaps_base_oversubscribe=1
 WT=/tmp/conf_$ID
 git -C /repo worktree remove --force $WT >/dev/null 2>&1
 git -C /repo worktree add --detach $WT HEAD >/dev/null 2>&1 || { echo "worktree failed"; exit 2; }
 cd $WT
-build() { cmake -G Ninja -S . -B _build -DCMAKE_BUILD_TYPE=RelWithDebInfo >/dev/null 2>&1 && ninja -C _build >/dev/null 2>&1; }
+DB=_build; [ "$CPLX" = "1" ] && DB=_build_cplx
+build() { cmake -G Ninja -S . -B _build -DCMAKE_BUILD_TYPE=RelWithDebInfo >/dev/null 2>&1 && ninja -j8 -C _build >/dev/null 2>&1 || return 1
+  if [ "$CPLX" = "1" ]; then cmake -G Ninja -S . -B _build_cplx -DCMAKE_BUILD_TYPE=RelWithDebInfo -DPOMEROL_COMPLEX_MATRIX_ELEMENTS=ON >/dev/null 2>&1 && ninja -j8 -C _build_cplx >/dev/null 2>&1 || return 1; fi; }
 demo() {
-  if [ -f $DEL/demo.cpp ]; then
-    g++ -std=c++11 -O1 -fopenmp $DEL/demo.cpp -I include -I include/pomerol -I _build/include -I /usr/include/eigen3 $(mpicxx --showme:compile) -L _build -lpomerol -Wl,-rpath,$WT/_build -lboost_mpi -lboost_serialization $(mpicxx --showme:link) -o demo 2>/tmp/conf_$ID.cc.log || { echo "demo compile failed"; tail -5 /tmp/conf_$ID.cc.log; return 99; }
+    cp $DEL/*.h . 2>/dev/null
+    g++ -std=c++11 -O1 -g -fopenmp $DEL/demo.cpp -I $DEL -I include -I include/pomerol -I $DB/include -I /usr/include/eigen3 $(mpicxx --showme:compile) -L $DB -lpomerol -Wl,-rpath,$WT/$DB -lboost_mpi -lboost_serialization $(mpicxx --showme:link) -lpthread -rdynamic -o demo 2>/tmp/conf_$ID.cc.log || { echo "demo compile failed"; tail -5 /tmp/conf_$ID.cc.log; return 99; }
     if [ "$NP" != "0" ]; then timeout 300 mpiexec --oversubscribe -np $NP ./demo >/tmp/conf_$ID.demo.log 2>&1; else timeout 300 ./demo >/tmp/conf_$ID.demo.log 2>&1; fi
     return $?
-  else
-    (cd $WT && timeout 600 bash $DEL/demo.sh >/tmp/conf_$ID.demo.log 2>&1); return $?
-  fi
 }
 build || { echo "baseline build failed"; exit 2; }
 demo; R0=$?
@@ -23,7 +23,9 @@ git apply $DEL/patch.diff || { echo "patch does not apply"; exit 2; }
 build || { echo "build with patch failed"; exit 2; }
 ctest --test-dir _build -j8 --timeout 900 >/tmp/conf_$ID.ctest.log 2>&1; RC=$?
 PASSED=$(grep -c "Passed" /tmp/conf_$ID.ctest.log)
+if [ "$CPLX" = "1" ]; then ctest --test-dir _build_cplx -j8 --timeout 900 >/tmp/conf_$ID.ctestc.log 2>&1; RCC=$?; PASSED="$PASSED real / $(grep -c Passed /tmp/conf_$ID.ctestc.log) complex"; RC=$((RC+RCC)); fi
 demo; R1=$?
-echo "$ID: demo without patch rc=$R0 ; with patch: ctest rc=$RC ($PASSED passed), demo rc=$R1 ; last demo lines: $(tail -2 /tmp/conf_$ID.demo.log | tr '\n' ' ' | cut -c1-200)"
+echo "$ID: demo without patch rc=$R0 ; with patch: ctest rc=$RC ($PASSED passed), demo rc=$R1 ; last demo lines: $(grep -v '^-*$' /tmp/conf_$ID.demo.log | tail -2 | tr '\n' ' ' | cut -c1-220)"
 cd /; git -C /repo worktree remove --force $WT >/dev/null 2>&1
+rm -f /tmp/conf_$ID.*.log
 [ $R0 -eq 0 ] && [ $RC -eq 0 ] && [ $R1 -ne 0 ] && exit 0 || exit 1
